@@ -249,7 +249,14 @@ int __wrap_poll(struct pollfd *fds, nfds_t n, int timeout) {
   bool anysim = false;
   for (nfds_t i = 0; i < n; i++)
     if ((fds[i].fd >= SIM_BASE && fds[i].fd < SIM_BASE + SIM_MAX) || k.socks.count(fds[i].fd)) anysim = true;
-  if (n > 0 && !anysim) return __real_poll(fds, n, timeout);
+  if (n > 0 && !anysim) {
+    // descriptors the model does not know: ask the real kernel, but never sleep in it -- a harness process that blocks in a real
+    // poll() burns no CPU, so neither the CPU-time limit nor the virtual clock would ever end it
+    int r = __real_poll(fds, n, 0);
+    if (r != 0 || timeout == 0) return r;
+    k.stuck = true;
+    return 0;
+  }
   k.polls++;
   if (!k.poll_eintr.empty()) {
     int e = k.poll_eintr.front();
